@@ -100,6 +100,10 @@ def prop(ctx, case):
     spec, seed = case["spec"], case["seed"]
     if seed % 2 == 0:
         spec = dict(spec, delta_time_s=[60, 900, 3600][seed % 3], start_time=T0)
+        if seed % 4 == 0:
+            # the optional (documented, otherwise unspecified) end_time of the problem, a few periods after its start
+            k = 2 + (seed // 4) % 5
+            spec["end_time"] = (datetime.fromisoformat(T0) + k * timedelta(seconds=spec["delta_time_s"])).isoformat()
     ex = engine.Explorer(ctx, spec, seed)
     if ex.sess is None:
         return
